@@ -74,6 +74,12 @@ func sortByName(n string) *Sort {
 		return SStr
 	case "Ref":
 		return SRef
+	case "IntArr":
+		return SArray(SInt, SInt)
+	case "StrArr":
+		return SArray(SInt, SStr)
+	case "RefArr":
+		return SArray(SInt, SRef)
 	}
 	panic("unknown sort " + n)
 }
